@@ -70,7 +70,7 @@ Section FrameCodec.
     mc_length mc (h_Version h) (bd_Message b) +l+
     (if has (h_Flags h) HeaderFlagTracing && msg_is_response (bd_Message b) then Ok LengthOfUuid else Ok 0) +l+
     (if has (h_Flags h) HeaderFlagCustomPayload then Ok (len_bytes_map (bd_CustomPayload b)) else Ok 0) +l+
-    (if has (h_Flags h) HeaderFlagWarning then Ok (len_string_list (olist (bd_Warnings b))) else Ok 0).
+    (if has (h_Flags h) HeaderFlagWarning && msg_is_response (bd_Message b) then Ok (len_string_list (olist (bd_Warnings b))) else Ok 0).
 
   Definition encode_header (h : Header) : W :=
     let useBeta := has (h_Flags h) HeaderFlagUseBeta in
@@ -84,12 +84,12 @@ Section FrameCodec.
 
   Definition encode_body_uncompressed (h : Header) (b : Body) : W :=
     (if has (h_Flags h) HeaderFlagTracing && msg_is_response (bd_Message b) then write_uuid (bd_TracingId b) else Ok []) +++
-    (if has (h_Flags h) HeaderFlagCustomPayload then
-       (if Z.ltb (h_Version h) ProtocolVersion4 then Err else write_bytes_map (bd_CustomPayload b))
-     else Ok []) +++
-    (if has (h_Flags h) HeaderFlagWarning then
+    (if has (h_Flags h) HeaderFlagWarning && msg_is_response (bd_Message b) then
        (if Z.ltb (h_Version h) ProtocolVersion4 && (match bd_Warnings b with Some _ => true | None => false end) then Err
         else write_string_list (olist (bd_Warnings b)))
+     else Ok []) +++
+    (if has (h_Flags h) HeaderFlagCustomPayload then
+       (if Z.ltb (h_Version h) ProtocolVersion4 then Err else write_bytes_map (bd_CustomPayload b))
      else Ok []) +++
     mc_encode mc (h_Version h) (bd_Message b).
 
@@ -151,8 +151,8 @@ Section FrameCodec.
 
   Definition decode_body_parts (h : Header) : R Body :=
     tr <- (if h_IsResponse h && has (h_Flags h) HeaderFlagTracing then rmap Some read_uuid else ret None) ;;
-    cp <- (if has (h_Flags h) HeaderFlagCustomPayload then rmap (@dedup_last _) read_bytes_map else ret []) ;;
     wa <- (if h_IsResponse h && has (h_Flags h) HeaderFlagWarning then rmap Some read_string_list else ret None) ;;
+    cp <- (if has (h_Flags h) HeaderFlagCustomPayload then rmap (@dedup_last _) read_bytes_map else ret []) ;;
     m <- mc_decode mc (h_Version h) (h_OpCode h) ;;
     ret {| bd_TracingId := tr; bd_CustomPayload := cp; bd_Warnings := wa; bd_Message := m |}.
 
